@@ -110,6 +110,47 @@ class K:
         return f'K({self.n})'
 
 
+class Alpha:
+    """holder of a nested key class: qualname 'Alpha.Zed' sorts before 'Beta', name 'Zed' after it"""
+
+    class Zed:
+        __slots__ = ('n',)
+
+        def __init__(self, n):
+            self.n = n
+
+        def __lt__(self, other):
+            return self.n < other.n if isinstance(other, Alpha.Zed) else NotImplemented
+
+        def __eq__(self, other):
+            return isinstance(other, Alpha.Zed) and self.n == other.n
+
+        def __hash__(self):
+            return hash(('Zed', self.n))
+
+        def __repr__(self):
+            return f'Alpha.Zed({self.n})'
+
+
+class Beta:
+    __slots__ = ('n',)
+
+    def __init__(self, n):
+        self.n = n
+
+    def __lt__(self, other):
+        return self.n < other.n if isinstance(other, Beta) else NotImplemented
+
+    def __eq__(self, other):
+        return isinstance(other, Beta) and self.n == other.n
+
+    def __hash__(self):
+        return hash(('Beta', self.n))
+
+    def __repr__(self):
+        return f'Beta({self.n})'
+
+
 # ---------------------------------------------------------------- namedtuples / struct sequences
 NT0 = namedtuple('NT0', '')
 NT1 = namedtuple('NT1', 'only')
